@@ -32,6 +32,7 @@ const (
 	keyDupInflux = "dup-key-survivor-depends-on-tag-order:influx"
 	keyStaleMark = "pooled-batch-stale-out-of-range-mark-drops-in-window-row"
 	keyFlatNs    = "flat-row-without-namespace-ignores-request-namespace"
+	keyInfluxInf = "influx-inf-spelled-field-dropped-rest-of-row-stored"
 )
 
 func (area) Run(c *core.Ctx) error {
@@ -54,6 +55,7 @@ func (area) Run(c *core.Ctx) error {
 				witnessStaleMark(c)
 			case i == 2:
 				witnessFlatNamespace(c)
+				witnessInfluxInf(c)
 			case i%4 == 0:
 				caseBatch(c, r)
 			case i%8 == 3:
@@ -251,6 +253,13 @@ func caseSingle(c *core.Ctx, r *rand.Rand, bad int) {
 			m.tags = m.tags[:12]
 		}
 	}
+	// a non-finite value in one field of a metric the line protocol can carry, next to valid fields
+	if _, ok := m.toInflux(); ok && len(m.tags) > 0 && r.Intn(6) == 0 {
+		if len(m.fields) == 1 || r.Intn(2) == 0 {
+			m.fields = append(m.fields, &lfield{name: genStr(r, 2) + "_last", typ: 1, val: num(int64(r.Intn(100)))})
+		}
+		m.fields[r.Intn(len(m.fields))].val = fval{kind: 1 + r.Intn(3)}
+	}
 	c.Op(cf.enc(), "ok")
 	var row metric.BrokerRow
 	err, t0, t1 := convertProto(cf, m, &row)
@@ -260,6 +269,9 @@ func caseSingle(c *core.Ctx, r *rand.Rand, bad int) {
 		c.Branch("reject/" + k)
 		c.NonTrivial()
 		checkRejectedWhole(c, cf, m)
+		if k == "nan-field" || k == "inf-field" {
+			checkInfluxNonFinite(c, r, cf, m)
+		}
 		return
 	}
 	o, mism := observe(&row)
@@ -442,6 +454,50 @@ func formatAgreement(c *core.Ctx, cf *cfg, m *lmetric, o *obs, cons bool, t0 int
 	}
 }
 
+var nonFiniteSpellings = map[int][]string{
+	1: {"NaN", "nan", "NAN"},
+	2: {"Inf", "+Inf", "inf", "+inf", "INF", "Infinity", "+Infinity", "infinity", "+infinity", "INFINITY"},
+	3: {"-Inf", "-inf", "-INF", "-Infinity", "-infinity"},
+}
+
+// checkInfluxNonFinite: the protobuf path rejected the metric because a field is NaN / ±Inf. The same
+// metric as an influx line (the value in one of strconv.ParseFloat's spellings) is an invalid metric
+// too: it must be rejected as a whole — no row, in particular not a row with the other fields only.
+func checkInfluxNonFinite(c *core.Ctx, r *rand.Rand, cf *cfg, m *lmetric) {
+	var used []string
+	line, ok := m.toInfluxSp(func(v fval) string {
+		sp := nonFiniteSpellings[v.kind][r.Intn(len(nonFiniteSpellings[v.kind]))]
+		used = append(used, sp)
+		return sp
+	})
+	if !ok || len(used) == 0 {
+		return
+	}
+	ns := m.ns
+	if cf.reqNs != "" {
+		ns = cf.reqNs
+	}
+	b, _ := parseInflux(cf, ns, []string{line})
+	c.Branch("influx-non-finite-field-line")
+	if b == nil || b.Len() == 0 {
+		return
+	}
+	fm := b.Rows()[0].Metric()
+	stored := fm.SimpleFieldsLength()
+	// the spellings ending in f/F are eaten by the boolean shortcut of parseField (recorded finding)
+	onlyShortInf := true
+	for _, sp := range used {
+		if !strings.HasSuffix(strings.ToLower(sp), "inf") {
+			onlyShortInf = false
+		}
+	}
+	key := "influx-invalid-metric-partially-stored"
+	if onlyShortInf {
+		key = keyInfluxInf
+	}
+	c.Fail(key, fmt.Sprintf("line %q has a non-finite field (%s): the protobuf path rejects the metric, influx stores a row with %d of its %d fields", line, strings.Join(used, ","), stored, len(m.fields)))
+}
+
 func sent(cf *cfg, m *lmetric) []ltag {
 	ts, _ := allTags(cf, m)
 	return ts
@@ -542,6 +598,32 @@ func witnessFlatNamespace(c *core.Ctx) {
 	}
 	if of.ns != "req-ns" {
 		c.Fail(keyFlatNs, fmt.Sprintf("request namespace \"req-ns\", row without namespace: protobuf stores %q, influx stores %q, flat stores %q (the fall-back to the request namespace in BrokerRowFlatDecoder.rebuild is unreachable: readOnlyRow.NameSpace() never returns an empty slice)", o.ns, oi.ns, of.ns))
+	}
+}
+
+// witnessInfluxInf: `a_last=Inf` next to a valid field.
+func witnessInfluxInf(c *core.Ctx) {
+	cf := &cfg{lim: limits{isDefault: true}}
+	m := &lmetric{name: "cpu", ns: "ns", ts: 1700000000000, tags: []*ltag{{"h", "1"}},
+		fields: []*lfield{{name: "a_last", typ: 1, val: fval{kind: 2}}, {name: "b_last", typ: 1, val: num(2)}}}
+	var row metric.BrokerRow
+	err, _, _ := convertProto(cf, m, &row)
+	k := "accepted"
+	if err != nil {
+		k = "err " + errKind(err)
+	}
+	c.Op("conv "+m.enc(), k)
+	for _, sp := range []string{"Inf", "Infinity"} {
+		line, _ := m.toInfluxSp(func(fval) string { return sp })
+		b, _ := parseInflux(cf, "ns", []string{line})
+		if b != nil && b.Len() > 0 {
+			fm := b.Rows()[0].Metric()
+			key := keyInfluxInf
+			if sp != "Inf" {
+				key = "influx-invalid-metric-partially-stored"
+			}
+			c.Fail(key, fmt.Sprintf("line %q: the protobuf path rejects the metric (%s), influx stores a row with %d of its 2 fields", line, k, fm.SimpleFieldsLength()))
+		}
 	}
 }
 
@@ -774,9 +856,29 @@ func caseBatch(c *core.Ctx, r *rand.Rand) {
 	tss := genTimestamps(r, ik.name, n)
 	c.Op(cf.enc(), "ok")
 	c.Op("newbatch -", "ok")
-	b := metric.NewBrokerBatchRows() // never released
 	cv, release := metric.NewBrokerRowProtoConverter([]byte(cf.reqNs), cf.realEnriched(), cf.lim.real())
 	defer release(cv)
+	var b *metric.BrokerBatchRows
+	if r.Intn(3) == 0 {
+		// the batch object of an earlier, LARGER request comes back from the pool (channelManager.Write
+		// releases it): its slots beyond this request's rows still hold the earlier request's rows
+		old := metric.NewBrokerBatchRows()
+		for k := 0; k < n+1+r.Intn(6); k++ {
+			sm := simpleMetric(k, tss[k%len(tss)])
+			sm.name = "stale" + strconv.Itoa(k)
+			_ = old.TryAppend(func(row *metric.BrokerRow) error { return cv.ConvertTo(sm.toProto(), row) })
+		}
+		sit := old.NewShardGroupIterator(int32(numShards))
+		for sit.HasRowsForNextShard() {
+		}
+		old.Release()
+		b = metric.NewBrokerBatchRows()
+		if b == old {
+			c.Branch("route/pooled-batch-of-larger-request")
+		}
+	} else {
+		b = metric.NewBrokerBatchRows() // never released
+	}
 	type rowInfo struct {
 		m    *lmetric
 		hash uint64
@@ -862,17 +964,33 @@ func caseBatch(c *core.Ctx, r *rand.Rand) {
 		names   []string
 	}
 	var got []grp
+	var views [][]metric.BrokerRow
+	if h := handedOut(b, numShards, iv); h != b.Len() {
+		c.Fail("rows-not-of-this-batch-handed-out", fmt.Sprintf("the batch has %d rows, the shard/family iterators hand out %d (-1: they walk into an empty slot)", b.Len(), h))
+		c.Op(fmt.Sprintf("route %d %s", numShards, ik.name), fmt.Sprintf("handed-out %d of %d", h, b.Len()))
+		return
+	}
+	handed := 0
 	it := b.NewShardGroupIterator(int32(numShards))
 	for it.HasRowsForNextShard() {
 		shardIdx, fit := it.FamilyRowsForNextShard(iv)
 		for fit.HasNextFamily() {
 			ft, rs := fit.NextFamily()
-			g := grp{shard: shardIdx, famTime: ft}
-			for k := range rs {
-				fm := rs[k].Metric()
-				g.names = append(g.names, string(fm.Name()))
-			}
-			got = append(got, g)
+			got = append(got, grp{shard: shardIdx, famTime: ft})
+			views = append(views, rs)
+			handed += len(rs)
+		}
+	}
+	if handed != b.Len() {
+		// before any row is read: slots beyond Len() hold rows of an earlier request or nothing at all
+		c.Fail("rows-not-of-this-batch-handed-out", fmt.Sprintf("the batch has %d rows, the shard/family iterators hand out %d", b.Len(), handed))
+		c.Op(fmt.Sprintf("route %d %s", numShards, ik.name), fmt.Sprintf("handed-out %d of %d", handed, b.Len()))
+		return
+	}
+	for gi, rs := range views {
+		for k := range rs {
+			fm := rs[k].Metric()
+			got[gi].names = append(got[gi].names, string(fm.Name()))
 		}
 	}
 	var parts []string
@@ -944,6 +1062,10 @@ func caseBatch(c *core.Ctx, r *rand.Rand) {
 			present = append(present, i)
 			isPresent[i] = true
 		}
+	}
+	if h2 := handedOut(b2, numShards, iv); h2 != b2.Len() {
+		c.Fail("rows-not-of-this-batch-handed-out", fmt.Sprintf("the shuffled batch has %d rows, the shard/family iterators hand out %d", b2.Len(), h2))
+		return
 	}
 	groups, err := replica.VerifC16Write(ik.intervals, int32(numShards), present, 0, 0, b2)
 	seen2 := map[string]int{}
@@ -1017,6 +1139,24 @@ func caseBatch(c *core.Ctx, r *rand.Rand) {
 	if anyAbsent {
 		c.Branch("route/rows-for-absent-shard")
 	}
+}
+
+// handedOut counts the rows the shard/family iterators hand out, without reading any of them.
+func handedOut(b *metric.BrokerBatchRows, numShards int, iv timeutil.Interval) (n int) {
+	defer func() {
+		if recover() != nil {
+			n = -1 // the iterators walked into a slot that holds no row at all
+		}
+	}()
+	it := b.NewShardGroupIterator(int32(numShards))
+	for it.HasRowsForNextShard() {
+		_, fit := it.FamilyRowsForNextShard(iv)
+		for fit.HasNextFamily() {
+			_, rs := fit.NextFamily()
+			n += len(rs)
+		}
+	}
+	return n
 }
 
 // ---------------------------------------------------------------- flat streams through one decoder
